@@ -523,11 +523,40 @@ static char *join_tokens(Token *tok, Token *end) {
 // Concatenates all tokens in `arg` and returns a new string token.
 // This function is used for the stringizing operator (#).
 static Token *stringize(Token *hash, Token *arg) {
+  // Compute the length of the resulting token. Only the \ and "
+  // characters of string literals and character constants are escaped
+  // (C11 6.10.3.2p2); the spelling of any other token is kept as it is.
+  int len = 3;
+  for (Token *t = arg; t->kind != TK_EOF; t = t->next) {
+    len += t->len + 1;
+    if (t->kind == TK_STR || t->kind == TK_NUM)
+      for (int i = 0; i < t->len; i++)
+        if (t->loc[i] == '\\' || t->loc[i] == '"')
+          len++;
+  }
+
+  char *buf = calloc(1, len);
+  int pos = 0;
+  buf[pos++] = '"';
+  for (Token *t = arg; t->kind != TK_EOF; t = t->next) {
+    if (t != arg && (t->has_space || t->at_bol))
+      buf[pos++] = ' ';
+    for (int i = 0; i < t->len; i++) {
+      if ((t->kind == TK_STR || t->kind == TK_NUM) &&
+          (t->loc[i] == '\\' || t->loc[i] == '"'))
+        buf[pos++] = '\\';
+      buf[pos++] = t->loc[i];
+    }
+  }
+  buf[pos++] = '"';
+  buf[pos] = '\0';
+
   // Create a new string token. We need to set some value to its
   // source location for error reporting function, so we use a macro
   // name token as a template.
-  char *s = join_tokens(arg, NULL);
-  return new_str_token(s, hash);
+  Token *tok = tokenize(new_file(hash->file->name, hash->file->file_no, buf));
+  tok->line_no = hash->line_no;
+  return tok;
 }
 
 // Concatenate two tokens to create a new token.
